@@ -13,6 +13,10 @@ mod corpus_c03;
 mod dec;
 #[path = "../../kani/src/c03_gen.rs"]
 mod c03_gen;
+#[path = "../../kani/src/corpus_c04.rs"]
+mod corpus_c04;
+#[path = "../../kani/src/c04_gen.rs"]
+mod c04_gen;
 mod jsonref;
 mod laws;
 mod meta;
